@@ -168,7 +168,10 @@ Inductive case :=
 | NodeKeys (o : oracles) (w : wspec) (path : list Z) (ob : res tree)
 (* the command line with --paranoia: the secrets of the wallet (for the requested and for the default account / interval)
    and everything the program wrote to stdout and to its --file *)
-| ParCli (secrets : list str) (publics : list str) (out : str).
+| ParCli (secrets : list str) (publics : list str) (out : str)
+(* generate_children(interval) on a node of a watch-only wallet; interval = Python range arguments (a step is legal).
+   touches = some index of the range is >= 2^31 (computed by the driver from the arguments alone); observed child indexes *)
+| WatchGen (touches : bool) (ob : res (list Z)).
 
 Definition watch_tree (o : oracles) (w : wallet) (nd : node) : res tree :=
   let sha := sha256 o in let h := rmd160 sha in
@@ -215,6 +218,9 @@ Definition check_case (c : case) : Z :=
         | Err => true
         end in
       verdict agrees prop
+  | WatchGen touches ob =>
+      verdict true (if touches then negb (is_ok ob)
+                    else match ob with Ok l => forallb (fun i => (0 <=? i) && (i <? H)) l | Err => true end)
   | ParCli secrets publics out =>
       verdict true (forallb (fun x => match x with [] => true | _ => negb (is_sub x out) end) secrets
                     && forallb (fun x => is_sub x out) publics)
